@@ -258,6 +258,9 @@ def _classify(out):
     return verdict, model_txt
 
 
+CONFIRM_S = 20.0    # thorough tier: how long the other back end may take to confirm (or contradict) a decisive answer
+
+
 def solve(ob, timeout_s=30, workdir=None, solvers=None, wait_all=False):
     """run the portfolio on one obligation; fills ob.result"""
     workdir = workdir or tempfile.gettempdir()
@@ -297,7 +300,7 @@ def solve(ob, timeout_s=30, workdir=None, solvers=None, wait_all=False):
                 if verdict in ("sat", "unsat") and decisive_at is None:
                     decisive_at = now
             elif now - d["t0"] > timeout_s + 5 or (
-                    not wait_all and decisive_at is not None and now - decisive_at > GRACE_S):
+                    decisive_at is not None and now - decisive_at > (CONFIRM_S if wait_all else GRACE_S)):
                 d["p"].kill()
                 d["p"].wait()
                 d["outf"].close()
@@ -381,11 +384,11 @@ def _has_quant(t):
     return any(x.op in ("forall", "exists", "forall_range", "exists_range") for x in tm.subterms(t))
 
 
-def solve_with_relaxation(ob, timeout_s=30, workdir=None):
+def solve_with_relaxation(ob, timeout_s=30, workdir=None, wait_all=False):
     """portfolio; when undecided and some hypotheses are quantified, retry without them: `unsat` then still
     discharges (fewer hypotheses), `sat` only yields a *candidate* model (status 'sat-relaxed') that counts as a
     violation only if it replays on the real code"""
-    res = solve(ob, timeout_s=timeout_s, workdir=workdir)
+    res = solve(ob, timeout_s=timeout_s, workdir=workdir, wait_all=wait_all)
     if res["status"] != "unknown" or ob.expect != "valid":
         return res
     hy = [h for h in ob.hyps if not _has_quant(h)]
@@ -406,8 +409,10 @@ def solve_with_relaxation(ob, timeout_s=30, workdir=None):
     return res
 
 
-def solve_all(obs, timeout_s=30, workdir=None, jobs=None):
+def solve_all(obs, timeout_s=30, workdir=None, jobs=None, wait_all=False):
+    """wait_all (thorough tier): no back end is cancelled when the other has answered, so that every obligation both can
+    decide is decided twice, independently; a disagreement is a `conflict` (checker failure, exit 3)"""
     jobs = jobs or max(2, (os.cpu_count() or 4) // 2)
     with ThreadPoolExecutor(max_workers=jobs) as ex:
-        list(ex.map(lambda ob: solve_with_relaxation(ob, timeout_s=timeout_s, workdir=workdir), obs))
+        list(ex.map(lambda ob: solve_with_relaxation(ob, timeout_s=timeout_s, workdir=workdir, wait_all=wait_all), obs))
     return obs
